@@ -28,13 +28,14 @@ NOT verified: tql2 (QL iteration convergence), get_eigenvalues (trigonometric
 closed form), tred2; hence the eigen-decomposition clause A V = V diag(d) is
 claimed only for zero_matrix_case and the transform helpers.
 """
+import ast
 import z3
 from fractions import Fraction
 
 from pyvc import sym as S
 from pyvc import native
 from pyvc.repo import Repo
-from pyvc.symexec import Executor, State, Obligation
+from pyvc.symexec import Executor, State, Obligation, LoopSpec, Native
 from pyvc.sym import VCError
 
 MOD = 'pysph.sph.wc.linalg'
@@ -59,7 +60,7 @@ def tasks(tier):
         out.append('helpers:%d' % n)
         for nb in (1, 2, 3):
             out.append('gj:%d:%d' % (n, nb))
-    out += ['gjwit', 'linalg3', 'canary']
+    out += ['gjwit', 'linalg3', 'tql2', 'canary']
     return out
 
 
@@ -179,6 +180,8 @@ def run_task(task, ctx):
         return task_gjwit(ctx, repo, m)
     if parts[0] == 'linalg3':
         return task_linalg3(ctx, repo)
+    if parts[0] == 'tql2':
+        return task_tql2(ctx, repo)
     if parts[0] == 'canary':
         a = syms('a', 2)
         ctx.canary('canary.must_fail', Obligation('c', [], a[0] * a[1] ==
@@ -696,3 +699,114 @@ print(json.dumps(out))
                             how='linalg3 built from the working tree')
         return dict(reproduced=False)
     ctx.prove('linalg3.eigen_decomposition', obs, replay=rp)
+
+
+# ------------------------------------------------------------- tql2 safety
+def task_tql2(ctx, repo):
+    """tql2 (QL iteration) is not verified functionally; what IS proved is
+    the safety contract its caller relies on for every symmetric tridiagonal
+    input: the deflation scan stops at the sentinel e[n-1] = 0 at the latest
+    (m <= n-1, so no read past d[n-1]/e[n-1]), a QL sweep is started only
+    with e[l] != 0 (the divisor 2*e[l]), p + r != 0, and e[n-1] = 0 is an
+    invariant of the sweep loop (which runs an unbounded number of times)."""
+    from pyvc.symexec import _DeadPath
+    mc = repo.cython_module(PYX)
+    fn = mc.functions['tql2']
+    W = mc.path
+    N = 3
+    V = [[z3.Real('V%d%d' % (i, j)) for j in range(N)] for i in range(N)]
+    d = syms('d', N)
+    e = syms('e', N)
+    side = []
+
+    class Ex(Executor):
+        def stmt_If(self, node, st):
+            if ast.unparse(node.test).replace(' ', '') == 'm>l':
+                mval = st.env['m']
+                ok = (not S.is_sym(mval)) and mval <= N - 1
+                side.append(Obligation(
+                    'tql2.scan_stops_at_sentinel.l%s' % st.env['l'],
+                    list(st.pc), z3.BoolVal(bool(ok)), W))
+                if not ok:
+                    raise _DeadPath()
+            return super().stmt_If(node, st)
+
+    def inv(ex, st):
+        env = st.env
+        l = env['l']
+        el = S.to_real(env['e'][l])
+        absl = z3.If(el >= 0, el, -el)
+        cont = S.to_bool(env['cont'])
+        cont = cont if S.is_sym(cont) else z3.BoolVal(bool(cont))
+        return z3.And(S.to_real(env['e'][N - 1]) == 0,
+                      S.to_real(env['tst1']) >= 0,
+                      z3.Implies(cont, absl > S.to_real(env['eps']) *
+                                 S.to_real(env['tst1'])))
+    loops = sorted([x for x in ast.walk(fn) if isinstance(x, (ast.For,
+                                                              ast.While))],
+                   key=lambda x: (x.lineno, x.col_offset))
+    wk = [i for i, x in enumerate(loops) if isinstance(x, ast.While) and
+          ast.unparse(x.test) == 'cont']
+    spec = LoopSpec(inv=[('sentinel_and_guard', inv)])
+    ex = Ex(repo, mc, qualname='tql2', definedness='obligation', merge=True,
+            prune=True, inline={'MAX', 'hypot2'},
+            loop_specs={('tql2', wk[0]): spec})
+    ex.spec_env['n'] = N
+    ex.spec_env['fabs'] = Native(lambda e_, s_, a, k, nd: S.ite(
+        S.cmp('>=', a[0], 0), a[0], S.neg(a[0])))
+    outs = ex.exec_function(fn, dict(V=V, d=d, e=e), State(pc=[]))
+    ctx.function(mc, fn, 'tql2 (safety contract only)', ex.dropped)
+    # the two divisions the contract covers, by source text of the divisor
+    lines = {}
+    for nd in ast.walk(fn):
+        if isinstance(nd, ast.BinOp) and isinstance(nd.op, ast.Div):
+            t = ast.unparse(nd.right).replace(' ', '')
+            if t in ('2.0*e[l]', 'p+r'):
+                lines[nd.lineno] = t
+    obs = list(side)
+    for o in ex.obligations:
+        if o.kind in ('inv-entry', 'inv-step'):
+            obs.append(o)
+        elif o.kind == 'defined' and o.name.startswith('defined.div@'):
+            ln = int(o.name.split('@')[1])
+            if ln in lines:
+                o.name = 'tql2.divisor_nonzero[%s]' % lines[ln]
+                obs.append(o)
+    obs.append(Obligation('tql2.both_divisions_found', [], z3.BoolVal(
+        sorted(lines.values()) == ['2.0*e[l]', 'p+r']), W))
+    obs.append(Obligation('tql2.returns', [], z3.BoolVal(len(outs) >= 1), W))
+    for o_ in obs:
+        o_.extra = dict(o_.extra or {}, backends=['z3'], timeout_ms=60000)
+
+    def rp(model, ob):
+        mats = [[[1, 1, 1], [1, 1, 1], [1, 1, 1]],
+                [[0, 0, 0], [0, 2, 1], [0, 1, 3]],
+                [[0, 0, 0], [0, 1, 2], [0, 2, 4]],
+                [[2, 1, 0], [1, 3, 1], [0, 1, 4]],
+                [[1, 0, 0], [0, 1, 0], [0, 0, 1]]]
+        script = """
+import json, sys
+import numpy as np
+import linalg3
+out = []
+for a in json.load(sys.stdin)['mats']:
+    A = np.array(a, dtype=float)
+    d, V = linalg3.py_eigen_decompose_eispack(A.copy())
+    d = np.asarray(d); V = np.asarray(V)
+    sc = max(np.abs(A).max(), 1e-300)
+    out.append([float(np.abs(A @ V - V @ np.diag(d)).max() / sc),
+                float(np.abs(V.T @ V - np.identity(3)).max())])
+print(json.dumps(out))
+"""
+        try:
+            res = native.run_built_pyx(PYX, script, dict(mats=mats))
+        except Exception as e_:
+            return dict(reproduced=False, note='build/run failed: %s' %
+                        str(e_)[:300])
+        for a, (r1, r2) in zip(mats, res):
+            if not (r1 <= 1e-8 and r2 <= 1e-8):
+                return dict(reproduced=True, A=a, residual_AV_Vd=r1,
+                            residual_orth=r2,
+                            how='linalg3 built from the working tree')
+        return dict(reproduced=False)
+    ctx.prove('linalg3.tql2_safety', obs, replay=rp, use_nf=False)
